@@ -41,6 +41,9 @@ def run(model, tier="quick"):
     uncl = unclassified_fields(model)
     if uncl:
         res.notes.append("unclassified fields treated as holdings: " + ", ".join(uncl))
+    # constructors establish the relations between fields that the references above take for granted
+    from .ctor_refs import constructors
+    res.units["constructor_references"] = constructors(res, model, ('market', 'broker'))
     from ..rules.fresh import fresh_rule
     if "R-FRESH" not in res.rules:
         res.rules.append("R-FRESH")
